@@ -35,6 +35,14 @@ fn check_prefixes(base: &DirState, recs: &[Rec], want: &RefSnap, level: usize, s
                 overwritten = true;
             }
         }
+        if let Rec::Truncate { ino, len } = r {
+            // cutting the old TOC / footer off (the delete-only recovery does that before it writes
+            // the new TOC at the same offset) opens the same window
+            let main = st.names.get(crash::MEM_NAME).copied();
+            if main == Some(*ino) && *len >= 4096 && st.inodes.get(ino).is_some_and(|b| (*len as usize) < b.len()) {
+                overwritten = true;
+            }
+        }
         if r.is_marker() {
             continue;
         }
@@ -199,7 +207,7 @@ pub fn check(c: &Case) -> CheckResult {
 }
 
 pub fn build(ctx: &Ctx) -> Vec<Box<dyn Arm>> {
-    ctx.rule("crash-left files taken from recorded C02 histories at the points that need recovery (right after a put / update / delete returned, so its log record is pending; and inside commits / closes) are opened in a child process under the syscall recorder; the parent rebuilds the file after EVERY prefix of that open's syscall log and opens it again: it must open and show exactly the state the uninterrupted recovery produced; this is nested (crash inside recovery, recover under the recorder, crash again) to depth 2 (thorough: 3) at generated points, every prefix at the first level and every 2nd / 3rd deeper; finally the fully recovered file is opened again under the recorder: no frame may change and a crash inside that second open must be harmless too; non-trivial = the crash point lies at or after the first write of the recovering open");
+    ctx.rule("crash-left files taken from recorded C02 histories at the points that need recovery (right after a put / update / delete returned, so its log record is pending; and inside commits / closes) are opened in a child process under the syscall recorder; the parent rebuilds the file after EVERY prefix of that open's syscall log and opens it again: it must open and show exactly the state the uninterrupted recovery produced; this is nested (crash inside recovery, recover under the recorder, crash again) to depth 2 (thorough: 3) at generated points, every prefix at the first level and every 2nd / 3rd deeper; finally the fully recovered file is opened again under the recorder: no frame may change and a crash inside that second open must be harmless too; non-trivial = the crash point lies at or after the first write of the recovering open; arm pending_deletes: the same for files whose log holds only tombstones (puts, commit, optional close+open, 1..2 deletes, kill)");
     ctx.assume("process-crash model (completed syscalls persist); the reference for a scenario is the snapshot produced by the same file's uninterrupted recovery");
     let t = ctx.tier;
     vec![arm_with(
@@ -208,6 +216,28 @@ pub fn build(ctx: &Ctx) -> Vec<Box<dyn Arm>> {
         8,
         t.pick(8, 60),
         move || (c02::case(t.pick(5, 24)), prop::collection::vec(any::<u16>(), 1..=t.pick(1, 6)), prop::collection::vec(any::<u16>(), t.pick(1, 2))).prop_map(|(hist, picks, nested)| Case { hist, picks, nested }),
+        check,
+    ),
+    // a log that holds only tombstones: the recovering open rewrites the TOC at its old offset and
+    // the file stays openable at almost every crash point, so whatever fails here is not hidden by
+    // the listed in-place window
+    arm_with(
+        "pending_deletes",
+        t.pick(4, 100),
+        8,
+        t.pick(6, 40),
+        move || {
+            (1u8..4, prop::collection::vec(crate::props::c01::put_spec(2500, 3200, false, true), 2..=4), any::<bool>(), prop::collection::vec(any::<u16>(), 1..=2), prop::collection::vec(any::<u16>(), t.pick(1, 2))).prop_map(|(dim, puts, reopen, dels, nested)| {
+                let mut ops: Vec<Op> = puts.into_iter().map(Op::Put).collect();
+                ops.push(Op::Commit);
+                if reopen {
+                    ops.push(Op::Reopen);
+                }
+                ops.extend(dels.into_iter().map(|target| Op::Delete { target }));
+                // the last candidate = the file as a kill after the last delete leaves it
+                Case { hist: crate::crash::CrashCase { dim, ops }, picks: vec![u16::MAX], nested }
+            })
+        },
         check,
     )]
 }
